@@ -454,6 +454,9 @@ class Ctx(object):
                 if name.startswith("has_"):
                     for r in self.alloc_refs:
                         self.facts.append(z3.Not(arr[r]))
+                if name.startswith("val_") and (self.reg.fields.get(name[4:]) or "").startswith("ref:"):
+                    x = z3.Int("x!ref")
+                    self.facts.append(z3.ForAll([x], arr[x] > 0, patterns=[arr[x]]))
             st.heap[name] = arr
         return st.heap[name]
 
@@ -532,6 +535,8 @@ def sv_eq(ctx, st, a, b, node=None):
         return a.z == b.z
     if ka == "ref" and kb == "ref":
         return a.z == b.z
+    if ka == "array" and kb == "array":
+        return a.z == b.z
     if ka == "tuple" and kb == "tuple":
         if len(a.z) != len(b.z):
             return z3.BoolVal(False)
@@ -580,6 +585,8 @@ def sv_ite(ctx, c, a, b):
         return SV("str", z3.If(c, a.z, b.z))
     if ka == kb == "ref":
         return SV("ref", z3.If(c, a.z, b.z), a.x if a.x == b.x else a.x)
+    if ka == kb == "array":
+        return SV("array", z3.If(c, a.z, b.z))
     if ka == kb == "tuple" and len(a.z) == len(b.z):
         return mk_tuple([sv_ite(ctx, c, x, y) for x, y in zip(a.z, b.z)])
     if ka == kb == "conc" and a.z is b.z:
@@ -731,7 +738,8 @@ class SpecFun(object):
         self.node = node
         self.modname = modname
         self.params = params
-        self.z = z3.Function("sf_" + name, *([I] * len(params) + [I]))
+        sorts = [AII if ann in ("array", "bytes") else I for (_, ann) in params]
+        self.z = z3.Function("sf_" + name, *(sorts + [I]))
 
 
 # ---------------------------------------------------------------------------
@@ -772,8 +780,17 @@ class Exec(object):
         if fr.sidecar_globals is not None and name in fr.sidecar_globals:
             return mk_conc(fr.sidecar_globals[name])
         try:
+            if fr.modname is None:
+                raise KeyError(name)
             obj = frontend.resolve_name(fr.modname, name)
         except (KeyError, ImportError):
+            gg = getattr(fr, "ghost_globals", None)
+            if gg is not None and name in gg:
+                return mk_conc(gg[name])
+            import builtins
+
+            if hasattr(builtins, name):
+                return mk_conc(getattr(builtins, name))
             raise Unsupported("unknown name %s" % name, node)
         return mk_conc(obj)
 
@@ -819,13 +836,13 @@ class Exec(object):
 
     def alloc_ref(self, st, kind):
         ctx = self.ctx
+        # objects that exist on entry (parameters, anything stored in the initial heap) have positive
+        # references; objects allocated during the call have negative, pairwise distinct ones
         r = ctx.fresh("ref")
         others = list(ctx.alloc_refs)
         for o in others:
             ctx.facts.append(r != o)
-        for p in ctx.param_refs:
-            ctx.facts.append(r != p)
-        ctx.facts.append(r > 0)
+        ctx.facts.append(r < 0)
         for f, (sort, arr0) in ctx.field_sorts.items():
             if f.startswith("has_"):
                 ctx.facts.append(z3.Not(arr0[r]))
@@ -1033,11 +1050,15 @@ class Exec(object):
             if z3.is_int_value(iz):
                 return base.z[iz.as_long()]
             raise Unsupported("symbolic tuple index", e)
+        if base.k == "array":
+            return mk_int(base.z[as_int(ctx, st, self.ev(st, e.slice), e)])
         if base.k == "ref":
             kind = base.x or ""
             if kind.startswith("dict"):
                 key = self.const_key(st, e.slice)
                 return self.load_key(st, base, key, e)
+            if kind == "file" and ctx.spec_mode:
+                return mk_int(ctx.field_array(st, "elem", AIA)[base.z][as_int(ctx, st, self.ev(st, e.slice), e)])
             if kind.startswith("list") or kind == "bytearray":
                 idx = as_int(ctx, st, self.ev(st, e.slice), e)
                 return self.load_elem(st, base, idx, e)
@@ -1242,6 +1263,12 @@ class BoundMethod(object):
 
 
 GHOST_NAMES = {
+    "content",
+    "fpos",
+    "flen",
+    "length",
+    "elems",
+    "field",
     "requires",
     "ensures",
     "decreases",
